@@ -12,6 +12,7 @@ import Iavl.Model.Ics23
 import Iavl.Model.ProofGen
 import Iavl.Model.Flusher
 import Iavl.Model.IndexMachine
+import Iavl.Model.V2Log
 /-
   The executable face of the model: a line-protocol interpreter that answers every operation of a
   history with exactly the definitions the theorems are about (`VTree.step`, `hashNode`, `mkProof`,
@@ -419,6 +420,14 @@ partial def exec (x : XState) (args : List String) : XState × String :=
     (x, "chunks=" ++ ",".intercalate (chunks.map fun c => toString c.length))
   | ["lrootval", _] => (x, "ok ver=1 val=x76")   -- a legacy store loads whatever the bytes of its root hash are
   | ["wlog"] => (x, "?")   -- answered only when the harness supplied the write log (then the line reads `flushcheck …`)
+  | ["vrange", lst, v] =>
+    -- v2 `VersionRange`: `Add` of each number (refused unless strictly ascending), then `FindPrevious`
+    let vs : List Nat := if lst == "-" then [] else (lst.splitOn ",").map String.toNat!
+    let rec asc : List Nat → Bool
+      | a :: b :: rest => a < b && asc (b :: rest)
+      | _ => true
+    if !asc vs then (x, "err-add") else
+    (x, match V2.findPrevious vs v.toNat! with | none => "-1" | some c => toString c)
   | "vex" :: _ => (x, icsVerify args)
   | "vnon" :: _ => (x, icsVerify args)
   | ["adopt"] =>
